@@ -61,7 +61,7 @@ const WRAP_ATOMS: [(&str, &str); 10] = [
 ];
 
 /// single-hole templates: (name, objective, constraints, extra-define). {H} is the hole.
-const TEMPLATES: [(&str, &str, &str, &str); 66] = [
+const TEMPLATES: &[(&str, &str, &str, &str)] = &[
     ("objective-operand", "min {H}", "x >= 0", ""),
     ("add-right", "min x", "x + {H} >= 0", ""),
     ("add-left", "min x", "{H} + x >= 0", ""),
@@ -110,6 +110,16 @@ const TEMPLATES: [(&str, &str, &str, &str); 66] = [
     ("union-arg", "min sum(v in union({H}, A)) { x }", "x >= 0", ""),
     ("intersection-arg", "min sum(v in intersection(A, {H})) { x }", "x >= 0", ""),
     ("difference-arg", "min sum(v in difference({H}, A)) { x }", "x >= 0", ""),
+    ("union-arg-2", "min sum(v in union(A, {H})) { x }", "x >= 0", ""),
+    ("intersection-arg-1", "min sum(v in intersection({H}, A)) { x }", "x >= 0", ""),
+    ("difference-arg-2", "min sum(v in difference(A, {H})) { x }", "x >= 0", ""),
+    ("range-fn-to", "min sum(k in range(0, {H}, false)) { x }", "x >= 0", ""),
+    ("enum-shorthand-arg", "min sum((v, k) in enum({H})) { x }", "x >= 0", ""),
+    ("E-shorthand-arg", "min sum((u, w) in E({H})) { x }", "x >= 0", ""),
+    ("V-shorthand-arg", "min sum(nd in V({H})) { x }", "x >= 0", ""),
+    ("N-shorthand-arg", "min sum(ed in N({H})) { x }", "x >= 0", ""),
+    ("N_of-shorthand-arg-1", "min sum(ed in N_of({H}, G)) { x }", "x >= 0", ""),
+    ("N_of-shorthand-arg-2", "min sum(ed in N_of(\"P\", {H})) { x }", "x >= 0", ""),
     ("edges-arg", "min sum((u, w) in edges({H})) { x }", "x >= 0", ""),
     ("nodes-arg", "min sum(nd in nodes({H})) { x }", "x >= 0", ""),
     ("neigh-edges-arg", "min sum(ed in neigh_edges({H})) { x }", "x >= 0", ""),
@@ -259,7 +269,7 @@ fn atom_class(atom: &str) -> String {
 fn position_class(template: &str) -> &str {
     match template {
         "array-index" | "matrix-index-1" | "matrix-index-2" | "scoped-array-index" => "array-index",
-        "sum-range-to" | "sum-range-from" | "sum-range-inclusive" | "range" | "range-fn-arg" | "range-fn-flag" => "range-end",
+        "sum-range-to" | "sum-range-from" | "sum-range-inclusive" | "range" | "range-fn-arg" | "range-fn-to" | "range-fn-flag" => "range-end",
         "compound-index" | "compound-index-plain" | "scoped-index" | "constraint-name-index" => "compound-index",
         "declaration-bound-lo" | "declaration-bound-hi" | "declaration-int-bound" | "declaration-bounds" => "declaration-bound",
         "constant-value" | "constant-in-expression" | "constant-len" => "constant-value",
@@ -323,7 +333,7 @@ fn check_program(src: &str, template: &str, atoms: &str, l: &mut Local) {
             if type_class {
                 l.violation(format!("accepted-but-{kind}:{}:{}", position_class(template), offending_class(&kind, atoms)), format!("type checker accepts, transform fails with the type-class error {kind}: {}", e.to_string().lines().next().unwrap_or("")), case(e.to_string()));
             } else {
-                l.count(&format!("accepted:data-dependent-error:{}", kind.split('(').next().unwrap_or("")));
+                l.count(&format!("accepted:data-dependent-error:{}", if kind.starts_with("Other(") { kind.as_str() } else { kind.split('(').next().unwrap_or("") }));
             }
         }
     }
@@ -332,7 +342,7 @@ fn check_program(src: &str, template: &str, atoms: &str, l: &mut Local) {
 pub fn run(mut run: Run) -> ! {
     crate::core::silence_panics();
     let quick = run.quick();
-    run.rule = "every (template x atom) program: 66 single-hole templates covering every operand, block, scoped-block body, iterator, range end, destructuring, index, function-argument, declaration-bound, declaration-iterator, constraint-iterator, constraint-name and constant position x 30 typed atoms (numbers, booleans, strings, arrays of every element kind, graph, constants, calls, domain variables, undeclared names); 8 scoped templates x (30 + 6 scoped atoms: node, edge, tuple, iterator, element, shadowed constant); the 66 single-hole templates again wrapped in an iteration scope x 10 iteration-only atoms (node, edge, edge endpoint, edge weight, enumerate tuple, string element, boolean element, matrix row, range variable, array element); 22 wrong-arity calls; thorough: 12 two-hole templates x all atom pairs; distinct = accepted program texts; non-trivial = accepted by the type checker".into();
+    run.rule = format!("every (template x atom) program: {} single-hole templates covering every operand, block, scoped-block body, iterator, range end, destructuring, index, function-argument, declaration-bound, declaration-iterator, constraint-iterator, constraint-name and constant position x 30 typed atoms (numbers, booleans, strings, arrays of every element kind, graph, constants, calls, domain variables, undeclared names); 8 scoped templates x (30 + 6 scoped atoms: node, edge, tuple, iterator, element, shadowed constant); the single-hole templates again wrapped in an iteration scope x 10 iteration-only atoms (node, edge, edge endpoint, edge weight, enumerate tuple, string element, boolean element, matrix row, range variable, array element); 22 wrong-arity calls; thorough: 12 two-hole templates x all atom pairs; distinct = accepted program texts; non-trivial = accepted by the type checker", TEMPLATES.len());
     run.assume("type-class error kinds: UndeclaredVariable, WrongArgument, WrongExpectedArgument, WrongFunctionSignature, WrongNumberOfArguments, NonExistentFunction, Unspreadable, SpreadError, UnOpError, BinOpError unless both operands are numeric kinds (division by zero / overflow), Other(domain variable used as a value), Other(block arity)");
     run.family("T1-single-hole", (TEMPLATES.len() * ATOMS.len()) as u64, |i, l| {
         let (tname, obj, cons, extra) = TEMPLATES[i as usize / ATOMS.len()];
